@@ -276,24 +276,43 @@ _OTHERS = None
 
 
 def other_interpreters():
-    """other CPython minor versions present in this sandbox that can run the harness (probed once per run); none is required"""
+    """other CPython minor versions present in this sandbox that can run the harness AND import the package of the tree under test
+    (probed once per run); none is required.  Taken: the nearest older and the nearest newer minor version next to the interpreter
+    the repository's tests run under.  A version that cannot import the package - a rewrite may use syntax or library features
+    the older version does not have, which no listed property forbids - is left out, and the evidence says so."""
     global _OTHERS
     if _OTHERS is None:
         found = {}
         import glob
+        ours = subprocess.run([PY, '-c', 'import sys; print("%d.%d" % sys.version_info[:2])'], capture_output=True, text=True).stdout.strip()
+        probe = ('import sys, types, json, struct, enum, zlib, pkgutil, importlib\n'
+                 'sys.path.insert(0, sys.argv[1])\n'
+                 'm = types.ModuleType("serial"); m.Serial = object; u = types.ModuleType("serial.serialutil"); u.SerialException = OSError\n'
+                 'm.serialutil = u; m.SerialException = OSError; sys.modules["serial"] = m; sys.modules["serial.serialutil"] = u\n'
+                 'import ubxlib\n'
+                 'for x in pkgutil.iter_modules(ubxlib.__path__): importlib.import_module("ubxlib." + x.name)\n'
+                 'print("%d.%d" % sys.version_info[:2])\n')
         for py in sorted(glob.glob('/root/.pyenv/versions/3.*/bin/python')) + ['/usr/bin/python3.11', '/usr/bin/python3']:
             try:
-                r = subprocess.run([py, '-c', 'import sys, json, struct, enum, zlib; print("%d.%d" % sys.version_info[:2])'], capture_output=True,
-                                   text=True, timeout=20)
+                r = subprocess.run([py, '-c', 'import sys; print("%d.%d" % sys.version_info[:2])'], capture_output=True, text=True, timeout=20)
                 v = r.stdout.strip()
-                if r.returncode == 0 and v and v != '%d.%d' % sys.version_info[:2] and tuple(map(int, v.split('.'))) >= (3, 8) \
-                        and subprocess.run([PY, '-c', 'import sys; print("%d.%d" % sys.version_info[:2])'], capture_output=True, text=True).stdout.strip() != v:
-                    found.setdefault(v, py)
+                if r.returncode != 0 or not v or v == ours or tuple(map(int, v.split('.'))) < (3, 8) or v in found or v in SKIPPED_INTERPRETERS:
+                    continue
+                r = subprocess.run([py, '-c', probe, REPO], capture_output=True, text=True, timeout=60)
+                if r.returncode == 0 and r.stdout.strip() == v:
+                    found[v] = py
+                else:
+                    SKIPPED_INTERPRETERS[v] = (r.stderr.strip().splitlines() or ['?'])[-1][:160]
             except (OSError, subprocess.SubprocessError, ValueError):
                 continue
-        vs = sorted(found, key=lambda x: tuple(map(int, x.split('.'))))
-        _OTHERS = [found[vs[0]], found[vs[-1]]] if len(vs) > 1 else [found[v] for v in vs]
+        key = lambda x: tuple(map(int, x.split('.')))
+        older = sorted((v for v in found if key(v) < key(ours)), key=key)
+        newer = sorted((v for v in found if key(v) > key(ours)), key=key)
+        _OTHERS = ([found[older[-1]]] if older else []) + ([found[newer[0]]] if newer else [])
     return _OTHERS
+
+
+SKIPPED_INTERPRETERS = {}       # version -> why it cannot import the package of this tree (reported in the evidence)
 
 
 def clone_size(n):
@@ -659,6 +678,8 @@ def evidence(prop, tier, seed, info, cases, n_spec, disagreements, failures, bro
         cov['leanchecker'] = info['leanchecker']
     if info.get('source_tie'):
         cov['source_tie'] = info['source_tie']
+    if _OTHERS is not None:
+        cov['other_interpreters'] = {'used': _OTHERS, 'left_out_because_they_cannot_import_this_tree': SKIPPED_INTERPRETERS}
     if extra:
         cov.update(extra)
     ev = {'property_id': prop, 'tier': tier, 'seed': seed, 'level': 'proof', 'coverage': cov,
